@@ -65,27 +65,14 @@ def run_resume(case, tr0, acc):
     from vf import engine_run, oracles, programs
     from workflows import Context
 
-    holder = {}
-    k = case["snap_at"]
-
     spec = case["spec"]
-
-    def after_tick2(runner, tick):
-        holder["n"] = holder.get("n", 0) + 1
-        if holder["n"] == k and "snap" not in holder:
-            tr = engine_run._CUR["trace"]
-            try:
-                holder["snap"] = json.loads(json.dumps(tr.handler.ctx.to_dict()))
-            except Exception as e:  # noqa: BLE001
-                holder["err"] = repr(e)
-
-    engine_run.run_case(spec, extra={"after_tick": after_tick2})
-    snap = holder.get("snap")
+    _tr, snaps = engine_run.run_with_snapshots(spec, only_k=case["snap_at"])
+    snap = snaps[case["snap_at"]]["snap"] if len(snaps) > case["snap_at"] else None
     if snap is None:
         return
     if not any(w["in_progress"] or w["queue"] for w in snap["workers"].values()):
         return
-    tr2 = engine_run.run_case(spec, ctx_factory=lambda w: Context.from_dict(w, snap), start=False)
+    tr2 = engine_run.run_case({**spec, "uid_base": 1000}, ctx_factory=lambda w: Context.from_dict(w, snap), start=False)
     acc.case()
     acc.hit("resumed_case")
     oracles.c01(tr2, acc, {"case": case, "phase": "resumed"})
